@@ -24,6 +24,9 @@ RULE = ('case = (recipe stack of 1..3 views from the catalogue, argument '
         'been delivered. Distinct: '
         'by digest of the whole case (recipe, variant, tables, knobs, '
         'schedule).')
+STATES = ('recipe stack x multiset over live iterators of position bucket '
+          '(not started / at header / mid-way / at end) x finished flag, '
+          'sampled after every step')
 COMPONENTS = {
     'real': ['petl (all view classes in the catalogue)', 'CPython generators',
              'pickle + OS temp files for chunked sorts / fromdicts spill '
